@@ -80,14 +80,24 @@ type mPB struct {
 
 func (m *mPB) Size() int { return 22 + len(m.D) }
 func (m *mPB) Marshal() ([]byte, error) {
+	if m.T == 0 && len(m.D) == 0 {
+		return nil, nil // like proto3: the zero value encodes to nothing
+	}
 	b := make([]byte, 0, m.Size())
 	return append(uvarint(uvarint(b, m.T), uint64(len(m.D))), m.D...), nil
 }
 func (m *mPB) MarshalTo(buf []byte) (int, error) {
+	if m.T == 0 && len(m.D) == 0 {
+		return 0, nil
+	}
 	b := append(uvarint(uvarint(buf[:0], m.T), uint64(len(m.D))), m.D...)
 	return len(b), nil
 }
 func (m *mPB) Unmarshal(b []byte) error {
+	if len(b) == 0 {
+		m.T, m.D = 0, nil
+		return nil
+	}
 	t, d, _, err := decodeTD(b)
 	m.T, m.D = t, d
 	return err
@@ -143,6 +153,9 @@ func c12Do(w *World, t uint64, d []byte) (uint64, []byte, error) {
 	if t == 13 {
 		return 0, nil, errors.New("unlucky thirteen")
 	}
+	if t == 77 {
+		return 0, nil, nil // a successful reply that is the zero value (encodes to nothing under pb / bytes)
+	}
 	out := make([]byte, len(d))
 	for i := range d {
 		out[i] = d[len(d)-1-i] ^ 0x5A
@@ -175,6 +188,10 @@ func (s *C12) B(req *[]byte, res *[]byte) error {
 		t, d = uint64(b[0]), b[1:]
 	}
 	t2, o, err := c12Do(s.w, t, d)
+	if t2 == 0 && len(o) == 0 {
+		*res = []byte{}
+		return err
+	}
 	*res = append([]byte{byte(t2)}, o...)
 	return err
 }
@@ -283,6 +300,8 @@ func (c c12Cfg) opts(n *FakeNet, byName bool, clientBuf int) *rpc.Options {
 	return o
 }
 
+var c12BoundarySizes = []int{56, 124, 125, 126, 127, 128}
+
 func boolOf(x *X) bool { return x.Choose(2) == 1 }
 
 // the script and its expected transcript
@@ -325,6 +344,9 @@ func c12Run(x *X, c c12Cfg, concurrent bool) {
 	var kept []keptReply
 	call := func(method string, t uint64, size int) string {
 		d := mkPayload(byte(t), 0, size)
+		if size == 0 {
+			d = nil // with tag 0: a request that is the zero value
+		}
 		rep := f.newMsg(0, nil)
 		err := conn.Call("C12."+method, f.newMsg(t, d), rep)
 		if err != nil {
@@ -397,6 +419,26 @@ func c12Run(x *X, c c12Cfg, concurrent bool) {
 			got = append(got, "stream-ok")
 		}
 		got = append(got, call(f.method, 5, 30))
+		// a successful reply that is the zero value, and a request that is the zero value
+		{
+			rep := f.newMsg(9, []byte{1, 2, 3})
+			zres := "ok"
+			if err := conn.Call("C12."+f.method, f.newMsg(77, mkPayload(77, 0, 12)), rep); err != nil {
+				zres = "E:" + err.Error()
+			} else if rt, rd := f.get(rep); f.name != "json/xml" && (rt != 0 || len(rd) != 0) {
+				// (JSON and XML leave absent fields of the reply object alone; the other families reset it)
+				zres = fmt.Sprintf("WRONG(tag %d, %d bytes)", rt, len(rd))
+			} else if f.name == "json/xml" && rt != 0 {
+				zres = fmt.Sprintf("WRONG(tag %d)", rt)
+			}
+			got = append(got, zres)
+		}
+		got = append(got, call(f.method, 0, 0))
+		// header fields (arguments, reply) of 125..131 bytes: one-byte / two-byte length boundary of the
+		// pb and code header formats, for every body codec (JSON: 16+2*56 = 128 bytes with a 3-digit tag)
+		for i, d := range c12BoundarySizes {
+			got = append(got, call(f.method, uint64(110+i), d))
+		}
 	}
 	// the replies are still what they were when the calls returned
 	for _, k := range kept {
@@ -405,14 +447,20 @@ func c12Run(x *X, c c12Cfg, concurrent bool) {
 			x.Fail("C12/reply-changed-later", "configuration {%v}: the reply of request %d changed after later traffic", c, k.t)
 		}
 	}
-	want := []string{"ok", "E:unlucky thirteen", "E:can't find service C12.Nope", "ok", "ok", "pong", "ok", "stream-ok", "ok"}
+	want := []string{"ok", "E:unlucky thirteen", "E:can't find service C12.Nope", "ok", "ok", "pong", "ok", "stream-ok", "ok", "ok", "ok"}
+	for range c12BoundarySizes {
+		want = append(want, "ok")
+	}
 	if concurrent {
 		want = []string{"ok", "ok", "ok", "ok", "ok"}
 	}
 	if fmt.Sprint(got) != fmt.Sprint(want) {
 		x.Fail("C12/transcript-differs", "configuration {%v}: transcript %v, expected %v", c, got, want)
 	}
-	execWant := map[byte]int{1: 1, 13: 1, 3: 1, 4: 1, 5: 1, 6: 1}
+	execWant := map[byte]int{1: 1, 13: 1, 3: 1, 4: 1, 5: 1, 6: 1, 77: 1, 0: 1}
+	for i := range c12BoundarySizes {
+		execWant[byte(110+i)] = 1
+	}
 	if !(f.alias && (c.srvNoCopy || c.cliNoCopy)) {
 		execWant[30], execWant[31] = 1, 1
 	}
